@@ -7,9 +7,6 @@ import QExPy.Model.MCSettings
 namespace QExPy.Drv
 open Lean QExPy
 
-def getFBList (j : Json) : R (List FB) := do
-  pure ((← getFList j).map FB.exact)
-
 def getFBMat (j : Json) : R (List (List FB)) := do
   let a ← getArr j
   a.toList.mapM getFBList
